@@ -74,7 +74,6 @@ func Scenarios(prop string) []gx.Sc {
 			// an application that turns to Errors() only after it asked for shutdown: an error the consumer wants to report
 			// (connection failure, Kafka error) waits for a reader while the close goes on
 			{Name: "cons?n=2&cuts=1&fmts=5&slow=1&buf=0&eslow=1&closeany=1&faults=drop,unknown-error&gates=" + gates, Q: 2, T: 3},
-			{Name: "cons?n=2&cuts=1&fmts=5&np=2&buf=0&eslow=1&closeany=1&faults=drop&gates=" + gates, Q: 2, T: 3},
 		}
 	}
 	return nil
